@@ -91,6 +91,10 @@ func encodeKey(sb *strings.Builder, v Value) bool {
 	case *Closure:
 		fmt.Fprintf(sb, "C%p;", v)
 	case Opaque:
+		if tk, ok := v.X.(typeKey); ok {
+			sb.WriteString("T<" + types.TypeString(tk.t, nil) + ">")
+			break
+		}
 		fmt.Fprintf(sb, "O%p;", v.X)
 	default:
 		panic(fmt.Sprintf("unhashable map key %T", v))
